@@ -488,6 +488,34 @@ def rule_stage(fx, rep, nxt):
                 ok = False
                 rep.violation("C10-STAGE", f"C10-STAGE/skip-parked/{cur}->{v}", f"MovePicker::next line {line}: in stage {cur} the stage is set to {v} while `{park}` may be Some, and the function can return before the stage is set to BadCaptures: the losing captures (and the queen promotion push) parked during the capture stage are never yielded",
                               {"fn": nxt.name, "file": nxt.file, "line": line})
+    # the BadCaptures stage hands out `moves[idx..captures_end]`, so entering it means rewinding `idx` to the first parked move:
+    # wherever the stage value BadCaptures is produced, the parked index must be at hand - the place sits on the `Some` side of a
+    # test on the parked-moves field. Entering the stage from anywhere else (seed C10-11a: `if no quiets { BadCaptures }`) leaves
+    # `idx` at the end of the captures and the parked moves are never yielded.
+    if "BadCaptures" in order and park:
+        bodies_ = [nxt] + [fx.body(callee_name(t)) for _bb, t in nxt.calls() if callee_name(t) and fx.body(callee_name(t)) is not None and
+                           "move_picker::MovePicker::" in norm(fx.body(callee_name(t)).name) and fx.body(callee_name(t)) is not nxt and fx.body(callee_name(t)).kind == "AssocFn"]
+        seen_b = set()
+        for hb in bodies_:
+            if hb.name in seen_b or norm(hb.name).endswith(("::new", "::new_loud")):
+                continue
+            seen_b.add(hb.name)
+            for bb, j, st in hb.stmts():
+                rv = st.get("rv")
+                if not (st["k"] == "assign" and rv and rv["k"] == "agg" and rv.get("variant") == "BadCaptures" and "GenStage" in str(rv.get("adt", ""))):
+                    continue
+                n += 1
+                good = False
+                for (e, pol, w) in guard_conditions(hb, bb, expand_named=True):
+                    og = option_guard(e, pol)
+                    if og is not None and og[1] is True and self_field(og[0], park):
+                        good = True
+                rep.obligation(good)
+                if not good:
+                    ok = False
+                    rep.violation("C10-STAGE", f"C10-STAGE/rewind/{norm(hb.name).split('::')[-1]}", f"`{hb.name}` line {st.get('line')} enters the BadCaptures stage at a place where `{park}` has not been found "
+                                  "to be Some: the index is not rewound to the first parked move there, so the stage starts past the captures and the parked losing captures are never yielded",
+                                  {"fn": hb.name, "file": hb.file, "line": st.get("line")})
     rep.rule("C10-STAGE", n, 12, ok, "stage assignments move forward; parked moves are revisited")
 
 
@@ -555,6 +583,8 @@ def rule_loud(fx, rep, nxt):
 
 M = "src/engine/search/move_picker.rs"
 MUTANTS = [
+    {"name": "without quiet moves the picker jumps to BadCaptures without the rewind (seed C10-11a)", "expect": "C10-STAGE/rewind",
+     "edits": __import__("shared_mutants").edits_from_patch("seeded/C10-11a/patch.diff")},
     {"name": "remembered move already at the head of the quiets is not taken out of the segment (seed C10-7b)", "expect": "C10-SEGMENTS/pulled-forward",
      "edits": [(M, "                        self.moves.swap(self.first_quiet, i);\n                        self.first_quiet += 1;\n\n                        if Some(killer1) != self.previous_best_move {", "                        if i > self.first_quiet {\n                            self.moves.swap(self.first_quiet, i);\n                            self.first_quiet += 1;\n                        }\n\n                        if Some(killer1) != self.previous_best_move {")]},
     {"name": "remembered hash move cleared after its first skip (seed C10-7a)", "expect": "C10-DEDUP/hash-move-writer",
